@@ -337,7 +337,10 @@ def World.rebuild (w : World) (rules : List RuleE) : World :=
 
 /-- what a thread of the harness does, one after the other -/
 inductive WCall
-  | check (forceBlock : Bool)            -- Slot.Check on a fresh entry, then Exit (forceBlock: a later slot blocks the request)
+  | check (forceBlock : Bool) (noEntry : Bool)
+      -- Slot.Check on a fresh entry, then Exit (forceBlock: a later slot blocks the request); noEntry: the context carries
+      -- no SentinelEntry (`base.NewEmptyEntryContext()`): a won probe is admitted and reported as usual but no rollback
+      -- hook can be attached, and there is no Exit
   | complete (rt : Nat) (err : Bool)     -- MetricStatSlot.OnCompleted
   | load (rules : List RuleE) (noop : Bool) (nx : Nat)
       -- LoadRules / LoadRulesOfResource, parked at `cb.x.reload` before; noop: the list is DeepEqual to the current
@@ -346,7 +349,7 @@ inductive WCall
 
 inductive Phase
   | idle
-  | checking (rest hooks : List Nat) (fb : Bool)   -- TryPass under way; breakers still to ask; probes won so far
+  | checking (rest hooks : List Nat) (fb ne : Bool)   -- TryPass under way; breakers still to ask; probes won so far (hooks on the entry)
   | rolling (rest : List Nat)                      -- exit hooks (rollbacks) under way
   | completing (rest : List Nat) (rt : Nat) (err : Bool)
   | loading (rules : List RuleE) (noop : Bool) (nx : Nat)   -- parked at cb.x.reload
@@ -362,11 +365,11 @@ structure WT where
 /-- move on to the next item of the program; a check / completion takes its snapshot of the published list here -/
 def advance (w : World) (res : List Bool) : List WCall → World × WT
   | [] => (w, { res := res })
-  | .check fb :: r =>
+  | .check fb ne :: r =>
     match w.cur with
     | [] => advance w (res ++ [true]) r
     | k :: ks => ((w.bindOn k (.tryPass false)).1,
-                  { cur := some (k, (w.bindOn k (.tryPass false)).2), phase := .checking ks [] fb, todo := r, res := res })
+                  { cur := some (k, (w.bindOn k (.tryPass false)).2), phase := .checking ks [] fb ne, todo := r, res := res })
   | .complete rt err :: r =>
     match w.cur with
     | [] => advance w res r
@@ -382,12 +385,12 @@ def startRoll (w : World) (t : WT) : List Nat → World × WT
 /-- the breaker call `(k, j)` of thread `t` has returned (`b`: its TryPass result, `won`: it won the probe) -/
 def afterCall (w : World) (t : WT) (k : Nat) (b won : Bool) : World × WT :=
   match t.phase with
-  | .checking rest hooks fb =>
+  | .checking rest hooks fb ne =>
     if b then
-      let hooks' := if won then hooks ++ [k] else hooks
+      let hooks' := if won && !ne then hooks ++ [k] else hooks
       match rest with
       | k2 :: ks => ((w.bindOn k2 (.tryPass false)).1,
-                     { t with cur := some (k2, (w.bindOn k2 (.tryPass false)).2), phase := .checking ks hooks' fb })
+                     { t with cur := some (k2, (w.bindOn k2 (.tryPass false)).2), phase := .checking ks hooks' fb ne })
       | [] => if fb then startRoll w { t with res := t.res ++ [true] } hooks'
               else advance w (t.res ++ [true]) t.todo
     else startRoll w { t with res := t.res ++ [false] } hooks
